@@ -465,11 +465,12 @@ Section P.
     - reflexivity.
   Qed.
 
-  (* a delivery whose database write fails: the request stays, nothing outstanding is dropped,
-     nothing is counted as resolved; if the FIRST write fails the builder is unchanged *)
-  Lemma failed_delivery_keeps_request s d i bks : find_req (pending s) (H d) = Some bks ->
-    let s' := fst (on_data_fail H children s d i) in
-    snd (on_data_fail H children s d i) = RFail /\
+  (* a delivery that fails (database write or requester error): the request stays, nothing
+     outstanding is dropped, nothing readable is lost, nothing is counted as resolved; if the
+     FIRST write fails the builder is unchanged *)
+  Lemma failed_delivery_keeps_request s d i k bks : find_req (pending s) (H d) = Some bks ->
+    let s' := fst (on_data_fail H children s d i k) in
+    snd (on_data_fail H children s d i k) = RFail /\
     find_req (pending s') (H d) <> None /\
     (forall r, req_in (pending s) r -> req_in (pending s') r) /\
     (forall bk, In bk bks -> req_in (pending s') (bk, H d)) /\
@@ -479,23 +480,36 @@ Section P.
     intros F. unfold on_data_fail. rewrite F. cbn [fst snd dbs pending resolved].
     pose proof (fold_deliver d (H d) (firstn i bks) (dbs s) (pending s) (Some (H d))) as K.
     cbn zeta in K. destruct K as (K1 & K2 & _).
+    set (r := fold_left (deliver_one children d (H d)) (firstn i bks) (dbs s, (pending s, Some (H d)))) in *.
+    set (r' := match k, nth_error bks i with
+               | Some n, Some bk => deliver_part children d (H d) r bk n
+               | _, _ => r
+               end).
+    assert ((forall q, req_in (fst (snd r)) q -> req_in (fst (snd r')) q) /\
+            (forall c, db_has (fst r) c = true -> db_has (fst r') c = true)) as [L1 L2].
+    { unfold r'. destruct k as [n|]; [|auto]. destruct (nth_error bks i) as [bk|]; [|auto].
+      unfold deliver_part. cbn [fst snd]. split.
+      - intros q G.
+        apply (proj1 (fold_req_missing (db_put (fst r) (bk, H d) d) (firstn n (children bk d)) (snd r))).
+        auto.
+      - intros c. apply db_has_put_mono. }
+    assert (forall q, req_in (pending s) q -> req_in (fst (snd r')) q) as KK by (intros q G; auto).
     assert (forall bk, In bk bks -> req_in (pending s) (bk, H d)) as RQ.
     { intros bk G. exists bks. split; auto. now apply find_req_some. }
-    split; [reflexivity|]. split; [|split; [exact K2|split; [|split; [|reflexivity]]]].
+    split; [reflexivity|]. split; [|split; [exact KK|split; [|split; [|reflexivity]]]].
     - intros N. destruct bks as [|bk bks].
-      + (* a request without requester cannot be found dropped either: the key is still there *)
-        apply find_req_some in F.
-        assert (exists b2, In (H d, b2) (fst (snd (fold_left (deliver_one children d (H d)) (firstn i []) (dbs s, (pending s, Some (H d))))))) as [b2 I].
-        { destruct i; cbn; eauto. }
+      + (* a request without requester: nothing is run at all *)
+        assert (r' = (dbs s, (pending s, Some (H d)))) as E.
+        { unfold r', r. destruct k, i; reflexivity. }
+        rewrite E in N. cbn [fst snd] in N. congruence.
+      + destruct (KK _ (RQ bk (or_introl eq_refl))) as [b2 [I _]]. cbn [snd] in I.
         eapply find_req_none; eauto.
-      + destruct (K2 _ (RQ bk (or_introl eq_refl))) as [b2 [I _]]. cbn [snd] in I.
-        eapply find_req_none; eauto.
-    - intros bk G. apply K2. auto.
-    - intros c. rewrite !db_has_true. unfold db_get. rewrite K1. apply has_app_mono.
+    - intros bk G. apply KK. auto.
+    - intros c G. apply L2. revert G. rewrite !db_has_true. unfold db_get. rewrite K1. apply has_app_mono.
   Qed.
 
   Lemma failed_first_write_noop s d : find_req (pending s) (H d) <> None ->
-    on_data_fail H children s d 0 = (s, RFail).
+    on_data_fail H children s d 0 None = (s, RFail).
   Proof.
     intros F. unfold on_data_fail. destruct (find_req (pending s) (H d)); [|congruence].
     cbn. destruct s; reflexivity.
